@@ -106,6 +106,18 @@ impl<SVC: Service> CloudServer<SVC> {
         })
     }
 
+    /// Verification hook: construct a server around an already-derived key.
+    #[cfg(gothenburgbitfactory_taskchampion_verif)]
+    pub(in crate::server) fn with_cryptor(service: SVC, cryptor: Cryptor) -> Self {
+        Self {
+            service,
+            cryptor,
+            cleanup_probability: DEFAULT_CLEANUP_PROBABILITY,
+            #[cfg(test)]
+            add_version_intercept: None,
+        }
+    }
+
     /// Get the salt value stored in the service, creating a new random one if necessary.
     async fn get_salt(service: &mut SVC) -> Result<Vec<u8>> {
         const SALT_NAME: &str = "salt";
@@ -165,6 +177,10 @@ impl<SVC: Service> CloudServer<SVC> {
 
     /// Generate a random integer in (0..255) for use in probabalistic decisions.
     fn randint(&self) -> Result<u8> {
+        #[cfg(gothenburgbitfactory_taskchampion_verif)]
+        if let Some(v) = super::verif::take_draw() {
+            return Ok(v);
+        }
         use rand::SecureRandom;
         let mut randint = [0u8];
         rand::SystemRandom::new()
